@@ -1,7 +1,7 @@
 CONSTANTS
   Callers = {1, 2, 3, 4}
-  NC = 48
-  NW = 48
+  NC <- TraceNC
+  NW <- TraceNW
   MaxReqs = 1000
   MaxConnsSet = {1}
   WaitSet = {FALSE}
